@@ -3,7 +3,7 @@ import numpy as np
 from hypothesis import strategies as st
 
 from vf import gen
-from vf.core import Verdict, case_hash, lib, maxdev, mk_basis, nfunc
+from vf.core import present_points, Verdict, case_hash, lib, maxdev, mk_basis, nfunc
 from vf.ref import r3, r5
 from vf.run import SubCheck
 
@@ -67,23 +67,16 @@ def judge(case):
     v.classes.append("lmax-%d" % max(s["l"] for s in shells))
 
     def ref(order):
-        val, ab, nb = r5.eval_basis(R, np.ascontiguousarray(pts), order)
+        val, ab, nb = r5.eval_basis(R, pts_c, order)
         tol = 1e-9 * ab + 1e-14 * nb
         if T is not None:
             val, tol = T @ val, np.abs(T) @ tol
         return val, tol + 1e-250  # absolute floor: products that underflow (values below 1e-250) are not judged
 
-    # memory layout must not matter: C-contiguous, Fortran-ordered, or a strided view of a wider array
-    layout = int(case_hash(case), 16) % 3
-    pts_c = pts
-    if layout == 1:
-        pts = np.asfortranarray(pts)
-        v.classes.append("points-fortran-order")
-    elif layout == 2:
-        wide = np.zeros((len(pts), 5))
-        wide[:, 1:4] = pts
-        pts = wide[:, 1:4]
-        v.classes.append("points-strided-view")
+    # the form in which the points arrive must not matter: C-contiguous, Fortran-ordered, a strided view of a wider array, an
+    # integer-typed grid, a float32 grid (the oracle uses exactly the values the array denotes)
+    pts, pts_c, form = present_points(pts, int(case_hash(case), 16))
+    v.classes.append("points-" + form)
     val0, tol0 = ref((0, 0, 0))
     got = lib(evaluate_basis, bas, pts, transform=T)
     if _cmp(v, "evaluate_basis", got, val0, tol0):
